@@ -1430,9 +1430,12 @@ impl RustGenerator {
                 let time_expr = self.word0_expr(time)?;
                 writer.line("{")?;
                 writer.indented(1, |writer| {
+                    // the operands may read `self.memory`: evaluate them before the state storage is borrowed
+                    writer.line(format!("let delay_input = {src_expr};"))?;
+                    writer.line(format!("let delay_time = {time_expr};"))?;
                     writer.line("let state = self.get_current_statestorage();")?;
                     writer.line(format!(
-                        "{dest}[0] = state.delay({src_expr}, {time_expr}, {}usize);",
+                        "{dest}[0] = state.delay(delay_input, delay_time, {}usize);",
                         max_len
                     ))
                 })?;
@@ -1443,8 +1446,10 @@ impl RustGenerator {
                 let src_expr = self.scalar_word_expr(func, src)?;
                 writer.line("{")?;
                 writer.indented(1, |writer| {
+                    // the operand may read `self.memory`: evaluate it before the state storage is borrowed
+                    writer.line(format!("let mem_input = {src_expr};"))?;
                     writer.line("let state = self.get_current_statestorage();")?;
-                    writer.line(format!("{dest}[0] = state.mem({src_expr});"))
+                    writer.line(format!("{dest}[0] = state.mem(mem_input);"))
                 })?;
                 writer.line("}")?;
             }
